@@ -31,3 +31,41 @@ CHECKS = {
     "C05": simbus("C05", RULE % "C05 (unicast to unique / well-known / missing names and the bus, concurrent ownership changes, closes, stalled readers, replies)",
                   probes=["dest_missing", "send_to_self", "eavesdrop_copy", "owner_handover_to_waiter", "noreply_on_disconnect"]),
 }
+
+# ----------------------------------------------------------------------------- MANIFEST texts
+
+_SIMBUS_NOTE = ("Trusted base: the simulated kernel (sim/kernel, Linux AF_UNIX semantics), the independent wire codec (sim/codec), the bus "
+                "reference model written from the specification (sim/model), hooks H1/H2/H2b (observation only). Real code: every bus/*.c and "
+                "dbus/*.c of the working tree under ASan+UBSan. Sampling over seeds: clean batch = evidence, not proof.")
+
+def _mt(level_text, design_ref, technique, note=_SIMBUS_NOTE):
+    return {"level_text": level_text, "design_ref": design_ref, "technique": technique, "level_note": note}
+
+MANIFEST_TEXT = {
+    "C03": _mt("Seeded search over histories of connects, Hello irregularities (repeated, missing, late), disconnects/reconnects and messages with forged SENDER, "
+               "unknown header fields 11..255, CONTAINER_INSTANCE, shuffled field order and both byte orders, under chunking/short-I/O/EINTR faults; every message any "
+               "client receives is compared with the model's prediction (true sender, no injected field survives), every Hello reply against the name the bus holds; "
+               "unique names checked pairwise distinct incl. across the minor-counter wrap (hook H1).",
+               "DESIGN.md section 4 C03", "deterministic simulation, seeded schedule and fault search, model-based oracle on recorded history"),
+    "C04": _mt("Seeded search over interleavings of RequestName (8 flag combinations + undefined bits), ReleaseName, disconnects, late connects and queries by 2-6 clients on 1-4 names "
+               "with delivery chunking and I/O faults; the real daemon's every reply code, NameLost/NameAcquired/NameOwnerChanged (addressee, arguments, order before the reply), "
+               "queue order and query answers are compared with an executable model of the specification's ownership rules stepped in the bus's processing order; spec-silent queue "
+               "positions are explicit choice points resolved by a white-box read and limited to the admissible set.",
+               "DESIGN.md section 4 C04, appendix A", "deterministic simulation, seeded interleaving search, refinement against a reference model"),
+    "C05": _mt("Seeded search over interleavings of unicast traffic (all four types, flags, unique/well-known/missing destinations, the bus) with concurrent ownership changes, "
+               "closes of sender/recipient, stalled readers with small socket buffers (EAGAIN / short writes on the bus side) and chunked arrival; oracle: at the instant the bus "
+               "processes a message (probe H2) the model's primary owner is the only non-eavesdropping receiver, exactly once, fields and body intact, per-sender order kept, "
+               "exactly one error for an undeliverable call.",
+               "DESIGN.md section 4 C05, appendix B", "deterministic simulation, seeded schedule and fault search, model-based oracle on recorded history"),
+}
+
+NOT_APPLICABLE = [
+    {"property_id": "C02", "reason": "pure function of a construction program: no stream, clock, peer, fault or interleaving in the statement; simulation would only be input generation (DESIGN.md section 5). Messages the real code emits in simulated runs are still validated by the independent codec, unclaimed."},
+    {"property_id": "C12", "reason": "synchronous in-memory header edits of one object; no schedule or fault dimension (OOM during edits belongs to C14). The strip/stamp slice the bus performs is exercised by C03/C05 oracles, arbitrary edit sequences are not (DESIGN.md section 5)."},
+    {"property_id": "C16", "reason": "pure string predicates over an input space; exhaustive small-string enumeration or a solver is the right tool, not a scheduler (DESIGN.md section 5)."},
+]
+
+# properties whose check is planned but not finished: not claimed, and listed in not_applicable with that reason
+NOT_CLAIMED_YET = ["C01", "C06", "C07", "C08", "C09", "C10", "C11", "C13", "C14", "C15", "C17", "C18", "C19", "C20"]
+for _p in NOT_CLAIMED_YET:
+    NOT_APPLICABLE.append({"property_id": _p, "reason": "not claimed yet: the simulation check for this property is designed (DESIGN.md section 4) but not finished; it is applicable to the technique and will be claimed when its check passes the determinism and sensitivity gates"})
